@@ -30,6 +30,7 @@ from vlib.report import RuleResult
 from rules.x_pp import model, CRATE
 
 EOF = '<eof>'
+BUF_EMPTY = (0, '')
 
 
 class Undecided(Exception):
@@ -128,6 +129,7 @@ class Code:
             raise Undecided('prologue statement `%s`' % sx.render(st)[:60])
         if self.body is None or self.buf is None or self.out is None:
             raise Undecided('no character loop / run buffer / output vector recognised')
+        self.scan_buffer_observers()
 
     # ---- expressions -------------------------------------------------------------------------------------------
     def ev(self, e, env, c, peek, buf_empty):
@@ -137,6 +139,11 @@ class Code:
                 return bool(e['v'])
             if e.get('t') == 'char':
                 return e['v']
+            if e.get('t') == 'int':
+                try:
+                    return ('int', int(str(e['v']).rstrip('usize').rstrip('_') or '0'))
+                except ValueError:
+                    pass
             raise Undecided('literal ' + sx.render(e))
         if k == 'path':
             p = e['p']
@@ -173,6 +180,9 @@ class Code:
                 if not (isinstance(a, bool) and isinstance(b, bool)):
                     raise Undecided('bit operator on non-bool')
                 return (a | b) if op == '|' else (a & b) if op == '&' else (a ^ b)
+            if op in ('==', '!=', '<', '>', '<=', '>=') and isinstance(a, tuple) and isinstance(b, tuple) \
+                    and {a[0], b[0]} == {'len', 'int'}:
+                return self.cmp_len(op, a, b, e)
             if op in ('==', '!='):
                 if type(a) is not type(b):
                     raise Undecided('comparison of %s' % sx.render(e)[:50])
@@ -191,7 +201,18 @@ class Code:
             if self.iter and rs == self.iter and m == 'peek' and not e['args']:
                 return ('none',) if peek == EOF else ('some', peek)
             if rs == self.buf and m == 'is_empty' and not e['args']:
-                return buf_empty
+                return buf_empty[0] == 0
+            if rs == self.buf and m == 'len' and not e['args']:
+                return ('len', buf_empty[0])
+            if rs == self.buf and m == 'ends_with' and len(e['args']) == 1:
+                a0 = e['args'][0]
+                lit = sx.lit_str(a0) if a0.get('k') == 'lit' and a0.get('t') != 'char' else (a0['v'] if a0.get('k') == 'lit' and a0.get('t') == 'char' else None)
+                if lit is None or not lit or len(lit) > self.track_k:
+                    raise Undecided('method call ' + sx.render(e)[:50])
+                n, suf = buf_empty
+                if n < len(lit):
+                    return False            # n is exact below the cap, and the cap exceeds every tracked literal
+                return suf[-len(lit):] == lit
             if m in ('is_some', 'is_none') and not e['args']:
                 v = self.ev(recv, env, c, peek, buf_empty)
                 if isinstance(v, tuple):
@@ -329,10 +350,57 @@ class Code:
         e = st
         for a in acts:
             if a[0] == 'P':
-                e = False
+                e = self.buf_push(e, a[1])
             elif a[0] == 'R':
-                e = True
+                e = BUF_EMPTY
         return e
+
+    # The run buffer is abstracted as (length capped at `len_cap`, the last `track_k` characters with every character
+    # that occurs in no `ends_with` literal of the body replaced by '?').  With no `len()` / `ends_with` in the body this
+    # is exactly "empty / not empty".
+    def buf_push(self, b, ch):
+        n, suf = b
+        k = self.track_k
+        a = ch if ch in self.track_chars else '?'
+        return (min(n + 1, self.len_cap), (suf + a)[-k:] if k else '')
+
+    def cmp_len(self, op, a, b, e):
+        if a[0] == 'int':
+            a, b = b, a
+            op = {'<': '>', '>': '<', '<=': '>=', '>=': '<='}.get(op, op)
+        n, k = a[1], b[1]
+        if n < self.len_cap:
+            return {'==': n == k, '!=': n != k, '<': n < k, '>': n > k, '<=': n <= k, '>=': n >= k}[op]
+        # n stands for every length >= len_cap
+        if k < self.len_cap:
+            return {'==': False, '!=': True, '<': False, '>': True, '<=': False, '>=': True}[op]
+        if k == self.len_cap and op in ('>=', '<'):
+            return op == '>='
+        raise Undecided('length compared with %d beyond the tracked bound' % k)
+
+    def scan_buffer_observers(self):
+        self.track_k, self.track_chars, self.len_cap = 0, set(), 1
+        ints = [0]
+        uses_len = False
+        for b in [self.fn['body']]:
+            for n in sx.walk(b):
+                if n.get('k') == 'mcall' and sx.render(n['recv']).replace(' ', '') == self.buf:
+                    if n['m'] == 'ends_with' and len(n['args']) == 1 and n['args'][0].get('k') == 'lit':
+                        a0 = n['args'][0]
+                        lit = a0['v'] if a0.get('t') == 'char' else sx.lit_str(a0)
+                        if lit and len(lit) <= 3:
+                            self.track_k = max(self.track_k, len(lit))
+                            self.track_chars |= set(lit)
+                    elif n['m'] == 'len':
+                        uses_len = True
+                if n.get('k') == 'lit' and n.get('t') == 'int':
+                    try:
+                        ints.append(int(str(n['v']).rstrip('usize').rstrip('_') or '0'))
+                    except ValueError:
+                        pass
+        if uses_len and max(ints) <= 6:
+            self.len_cap = max(ints) + 1
+        self.len_cap = max(self.len_cap, self.track_k + 1)
 
     def run_stmt(self, s, env, c, peek, acts, st):
         if s['k'] == 'let':
@@ -452,11 +520,27 @@ class Code:
 
 # ---- reference monitor ---------------------------------------------------------------------------------------------
 # state: (leading, lead_bs, in_comment, in_string, escaped, bq_prev, prev_ident_out, prev_kept)
-M0 = (True, False, False, False, False, False, False, None)
+M0 = (True, False, False, False, False, False, False, None, False)
 
 
 def monitor(m, c, peek):
-    """-> (keep?, ctx, m') or None when the context is not judged"""
+    """-> (keep?, ctx, m') or None when the context is not judged.  m[8] = between `" and `" (the string of the expansion)"""
+    in_bq = m[8] if len(m) > 8 else False
+    if c == '/' and peek == '*' and not m[2] and not m[3] and not in_bq:
+        # a block comment in the macro body: whether a quote or // inside it has a lexical meaning is read differently by
+        # the repository (it has) and by a lexer of the language (it has not) -- not judged.  Between `" and `" the two
+        # characters are text of the string being built and stay judged.
+        return None
+    if in_bq and c == '"' and not m[5] and not m[2]:
+        return None         # an ordinary quote between `" and `": not judged either
+    r = monitor8(m[:8], c, peek)
+    if r is None:
+        return None
+    keep, ctxname, m2 = r
+    return keep, ctxname, m2 + ((not in_bq) if ctxname == 'bq-quote' else in_bq,)
+
+
+def monitor8(m, c, peek):
     leading, lead_bs, in_comment, in_string, escaped, bq_prev, prev_io, prev_kept = m
     if leading:
         if c != '\\' and c not in ' \t\n\r\x0c':
@@ -533,10 +617,10 @@ def analyse(code, pairs):
         for n in sx.walk(b):
             if n.get('k') == 'lit' and n.get('t') == 'char':
                 lits.add(n['v'])
-    reps = sorted(lits | set('a0_ \n\r\\"/`+') | {ch for p in pairs for ch in p})
+    reps = sorted(lits | set('a0_ \n\r\\"/`+') | {ch for p in pairs for ch in p} | set(code.track_chars))
     flags0 = tuple(sorted(code.flags.items()))
     # product state: (flags, buf_empty, pending_keep, monitor, run_kind, tail_id, forced)
-    init = (flags0, True, False, M0, 'E', False, None)
+    init = (flags0, BUF_EMPTY, False, M0, 'E', False, None)
     seen = {init: None}
     q = deque([init])
     findings = {}
@@ -614,7 +698,7 @@ def analyse(code, pairs):
                     else:
                         run = 'O'
                     tail = False
-                buf_empty = False
+                buf_empty = code.buf_push(buf_empty, c)
             elif a[0] == 'F':
                 if run == 'IB':
                     report('string-ident-run', ctxname, state, extra)
@@ -622,17 +706,17 @@ def analyse(code, pairs):
                 nxt = acts[i][0] if i < len(acts) else None
                 if nxt == 'R':
                     i += 1
-                    buf_empty, pend = True, False
+                    buf_empty, pend = BUF_EMPTY, False
                 elif nxt == 'K':
                     i += 1
-                    pend = not buf_empty
+                    pend = buf_empty[0] != 0
                 elif not at_eof:
                     raise Undecided('run buffer moved into the output and not re-initialised')
             elif a[0] == 'R':
                 if run != 'E':
                     report('run-discarded', ctxname, state, extra)
                 run, tail = 'E', False
-                buf_empty, pend = True, False
+                buf_empty, pend = BUF_EMPTY, False
         if not at_eof and keep and pushes == 0:
             report('char-lost', ctxname, state, extra)
         return buf_empty, pend, run, tail
